@@ -993,8 +993,20 @@ func init() {
 			run.Do(fmt.Sprintf("begin dh=1 dt=%d", dt))
 		}
 		// all spawn at one of two nearby times, both due in the same block
+		// how the spawn times are spread: exactly the limit (200) at the first time and the rest at a
+		// second one, a random split over two times, or all at one time
+		mode := []int{0, 0, 1, 2}[r.intn(4)]
 		for i := 0; i < N; i++ {
-			run.Do(fmt.Sprintf("create s=u%d chain=c%d-1 init=1 spawn=%d ps=1 topn=0 setcap=0 powcap=0 minstake=0 inactive=1 allow= deny= prio=", i%3, i%4, 2*sec+int64(r.intn(2))))
+			off := int64(0)
+			switch mode {
+			case 0:
+				if i >= 200 {
+					off = 1
+				}
+			case 1:
+				off = int64(r.intn(2))
+			}
+			run.Do(fmt.Sprintf("create s=u%d chain=c%d-1 init=1 spawn=%d ps=1 topn=0 setcap=0 powcap=0 minstake=0 inactive=1 allow= deny= prio=", i%3, i%4, 2*sec+off))
 			run.Do(fmt.Sprintf("optin v=%d c=%d key=- signer=%d", i%3, i, i%3))
 		}
 		run.Do("optin v=1 c=3 key=- signer=1")
